@@ -906,7 +906,7 @@ func mpTranslate(pkg *spPkg, mi *msgInfo) (prog []string, failure string) {
 }
 
 func engineMarshalProg(cfg config, o *out) {
-	schemas := loadSchemas()
+	schemas := loadSchemasProg()
 	cc := newClassCov("marshalprog")
 	defer cc.emit(o)
 	for _, si := range schemas {
